@@ -25,12 +25,24 @@ def breakpoints(r, t, g, n):
         pts = [x] + [p for p in pts if p != x]
     # and, for a coding transcript, one breakpoint on a base of the start codon (the donor then keeps one, two or all three of
     # its bases)
+    forced = pts[:1] if one_in else []
     if t.get('cds'):
         c0 = t['cds'][0][0] if t['strand'] == 1 else t['cds'][-1][1] - 1
         x = c0 + t['strand'] * r.randrange(0, 3)
         if g['start'] <= x < g['end']:
-            pts = pts[:1] + [x] + [p for p in pts[1:] if p != x]
-    return pts[:n]
+            forced.append(x)
+    # and, for a transcript of three or more exons, one breakpoint deep inside the intron that has two or more exons upstream of
+    # it in transcript order (the retained stretch must start at the nearest upstream exon, not at the first one)
+    if len(t['exons']) >= 3:
+        k = len(t['exons']) - 2 if t['strand'] == 1 else 0
+        a, b = t['exons'][k][1], t['exons'][k + 1][0]
+        if b - a >= 3:
+            forced.append(r.randrange(a + 1, b - 1))
+    rest = [p for p in pts if p not in forced]
+    if n >= 4:
+        return (forced + rest)[:max(n, len(forced) + 1)]
+    # acceptor side (two points): one of the forced ones and one other
+    return ([r.choice(forced)] if forced else []) + rest[:n - (1 if forced else 0)]
 
 
 def gene_vars(small, gene, tx):
@@ -111,9 +123,18 @@ def check_c15(tier, rep=None, only_complete=False, only=None):
     r = env.rng('c15')
     n = 10 if tier == 'quick' else 200
     jl, meta = [], []
-    for i in range(n):
-        ref = refgen.random_reference(r, n_genes=r.randrange(2, 4), coding_p=0.7, max_exons=3, aa_len=(12, 22), nc_len=(40, 80),
-                                      isoform_p=0.5, flank_p=0.4)
+    for i in range(n + 1):
+        if i < n:
+            ref = refgen.random_reference(r, n_genes=r.randrange(2, 4), coding_p=0.7, max_exons=3, aa_len=(12, 22), nc_len=(40, 80),
+                                          isoform_p=0.5, flank_p=0.4)
+        else:
+            # always present: coding three-exon genes on both strands (breakpoints deep inside the intron that has two exons
+            # upstream, see breakpoints())
+            b_ = refgen.Builder(r)
+            for st_ in (1, -1):
+                sq_, cs_, ce_, secs_, prot_ = refgen.make_coding_tx_seq(r, r.randrange(14, 22), r.randrange(3, 8), r.randrange(6, 12))
+                b_.add_gene(sq_, st_, 3, True, cs_, ce_, secs_, (), prot_, intron=(6, 12))
+            ref = b_.finish()
         d = os.path.join(work, f'f{i}')
         paths = ref.write(d)
         genes, txs = ref.features()
